@@ -199,6 +199,12 @@ def make_case(i, rng, tier):
         t = tg[i // len(V.POOL)]
         name, fac, _ = V.POOL[i % len(V.POOL)]
         return {"target": t, "src": name, "fac": fac}
+    if rng.random() < 0.02:
+        order = rng.sample(["fn_kwargs", "cls", "cls2", "fn_plain"], rng.choice([2, 3, 4]))
+        if "fn_kwargs" not in order:
+            order[rng.randrange(len(order))] = "fn_kwargs"
+        return {"preset": True, "order": order, "base": rng.choice(["Schema", "DataClass"]),
+                "flags": rng.choice(["no_data_loss=True", "no_data_loss=True", "no_data_loss=True, no_explicit_cast=True", "no_explicit_cast=True"])}
     t = rng.choice(tg)
     st = rng.getstate()
 
@@ -388,9 +394,66 @@ def mechanism(tname, t, group, v, o, base, fl=None):
     return None
 
 
+PRESET_SRC = """
+import utype
+from utype import Schema, DataClass, Options
+PRESET = Options({flags})
+{first}
+{second}
+"""
+PRESET_PARTS = {
+    "fn_kwargs": "@utype.parse(options=PRESET)\ndef fn(a: int, **extra: int):\n    return a, extra\n",
+    "fn_plain": "@utype.parse(options=PRESET)\ndef fn2(a: int, b: str = ''):\n    return a, b\n",
+    "cls": "class S({base}):\n    __options__ = PRESET\n    a: int = 0\n",
+    "cls2": "class S2({base}):\n    __options__ = PRESET\n    b: str = ''\n    def helper(self):\n        return 1\n",
+}
+
+
+def run_preset(case, ctx):
+    """one Options object with strict flags shared by several declarations (the documented way to keep a preset): every
+    declaration keeps the promises of the flags, whatever else was declared with the same object before or after"""
+    from utype import Options
+    parts = [PRESET_PARTS[k].format(base=case["base"]) for k in case["order"]]
+    src = PRESET_SRC.format(flags=case["flags"], first=parts[0], second="\n".join(parts[1:]))
+    ns = {}
+    o = run(lambda: exec(src, ns))
+    ctx.count("calls")
+    ctx.count("shared_preset_scenarios")
+    sig = ("preset", case["flags"], tuple(case["order"]), case["base"])
+    if not o.ok:
+        ctx.violation("C12/preset/declaration-fails", f"declarations sharing Options({case['flags']}) in order {case['order']}: {o!r}", {"source": src}, sig=sig)
+        return
+    try:
+        fresh = eval("Options(" + case["flags"] + ")", {"Options": Options})
+        if repr(ns["PRESET"]) != repr(fresh):
+            ctx.violation("C12/preset/the-options-object-given-to-a-declaration-was-modified",
+                          f"Options({case['flags']}) shared by {case['order']} now reads {ns['PRESET']!r}", {"source": src}, sig=sig)
+            return
+        for cname, data in (("S", {"a": 1, "zz": 2}), ("S2", {"b": "x", "zz": 2}), ("S2", {"b": "x", "helper": 5})):
+            if cname not in ns:
+                continue
+            r = run(lambda: dict(ns[cname].__from__(dict(data))) if case["base"] == "Schema" else dict(ns[cname].__from__(dict(data)).__dict__))
+            ctx.count("calls")
+            if "no_data_loss=True" in case["flags"] and r.ok:
+                ctx.violation("C12/promise/no_data_loss/unknown-key-dropped-silently",
+                              f"class {cname} declared with a shared Options({case['flags']}) (other declarations with the same object: {case['order']}): "
+                              f"{data} -> {r!r}; no_data_loss promises that an unknown key is rejected", {"source": src, "input": data, "observed": repr(r)}, sig=sig)
+                return
+        ctx.held(sig)
+    finally:
+        from utype.parser import base as pbase
+        for v in ns.values():
+            try:
+                pbase.__parsers__.pop(v, None)
+            except Exception:
+                pass
+
+
 def run_case(case, ctx):
     from utype import Options, type_transform
 
+    if case.get("preset"):
+        return run_preset(case, ctx)
     tname, t, group = case["target"]
     fac = case["fac"]
     steps = _state["steps"]
